@@ -86,7 +86,8 @@ def _run_bin(sub, cases_path, out_path, scratch, timeout=3000, extra=()):
 # C34  accepted configurations are safe
 # =============================================================================================
 C34_FIELDS = ["lease", "rtt", "etMin", "etMax", "hb", "batch", "perReq", "retained", "other"]
-C34_OTHERS = ["none", "lct0", "gen0", "merge0", "mon0", "ttl99", "snapmax0", "retain0", "chunk0", "idle0"]
+C34_OTHERS = ["none", "lct0", "gen0", "merge0", "mon0", "ttl99", "snapmax0", "retain0", "chunk0", "idle0",
+              "noovr", "noovr_ev", "leasedef"]
 C34_TIER = {
     "quick": dict(timing=["p0", "p1", "p2", "p3", "mid", "maxm1", "max"], limit=["p0", "p1"], workers=4),
     "thorough": dict(timing=["p0", "p1", "p2", "p3", "midm1", "mid", "midp1", "maxm1", "max"],
